@@ -957,4 +957,25 @@ func Run(r *corr.Run) {
 		}
 	}
 	r.Note("rounds=%d targets=%d", rounds, len(w.targets))
+	// stateful multi-message sequences (tree, acl)
+	tf := w.newTreeFixture()
+	defer tf.close()
+	for k := 1; k <= 6; k++ {
+		w.treeSequence(tf, k, false)
+		w.treeSequence(tf, k, true)
+	}
+	seqs := 0
+	seqDeadline := time.Now().Add(time.Duration(r.Pick(8, 120)) * time.Second)
+	for (r.TimeLeft() || time.Now().Before(seqDeadline)) && seqs < r.Pick(400, 20000) && time.Now().Before(seqDeadline) {
+		seqs++
+		switch k := r.Intn(20); {
+		case k < 13:
+			w.treeSequence(tf, 0, r.Chance(50))
+		case k < 17:
+			w.aclSequence()
+		default:
+			w.kvSequence(tf)
+		}
+	}
+	r.Note("sequences=%d", seqs)
 }
